@@ -14,14 +14,15 @@ NOTE_COMMON = ("Trusted base: Lean 4.33 kernel (+leanchecker in thorough), Mathl
 KERN = ("hand-written Lean model of the kernels, generic over the arithmetic, tied to the numba kernels by bit-for-bit correspondence every run; "
         "theorems about that model (refinement of the H recursion to a size- and history-free recursion; exact-arithmetic identities); "
         "oracle gap monitor for the clauses no theorem covers")
+PARTIAL_ROUNDING = " PARTIAL: the floating-point rounding-error bound (and finiteness at large ell) is not a theorem (no IEEE error analysis); it is covered by the bitwise-validated model plus an mpmath oracle sweep, which is evidence, not proof. The exact-arithmetic identification with the documented formula IS proved for every ell. "
 PARTIAL = " PARTIAL: rounding-error bounds and the identification of the recursion's exact limit with the documented special functions are not theorems (no IEEE error analysis / Wigner-D theory available in Lean/Mathlib); they are covered by the bitwise-validated model plus an mpmath/Racah oracle sweep, which is evidence, not proof. "
 
 TABLE = {
     "C01": ("Lean refinement proof of the H recursion + bitwise correspondence + mpmath oracle",
-            "Proved for every arithmetic (hence IEEE doubles) and all sizes: the five-step recursion stores at each wedge coordinate a value that depends on the coordinate and beta only (HKernel.runH_refines/pure/size_indep); over checked reals the recursion never divides by zero nor takes the root of a negative number for any size, and never reads the inf/nan table entries (Finite.runH_checked_eq_real, tables_read_defined); every flat index expression of _step_2.._step_5 denotes the cell/table entry the model uses, in range (FlatSteps.*); d/D assembly formula; eps = generated eps; over exact reals the model EQUALS the documented polynomial for ell <= 1 and every unit quaternion (both degenerate Euler branches included: DDef.D_ell1, d_ell1 — pins every sign/phase/index convention), for ell = 2 (DDef2) and on both pole families for EVERY ell (DDef.D_zrot, D_pi, D_identity, H_poles); for every ell the model computes the documented d PROVIDED the documented d satisfies the Gumerov-Duraiswami relations (0),(41),(50) and the two symmetries — a statement of pure mathematics with a unique solution (GDFamily.objd_eq_doc_of_IsGDFamily, IsGDFamily.unique; and, when Props/DocD builds, discharged for the documented sum itself). The model is the code: tables, H (from poisoned workspaces), Euler phases, complex powers, fill_d, fill_D agree bit for bit on every generated case." + PARTIAL,
+            "Proved for every arithmetic (hence IEEE doubles) and all sizes: the five-step recursion stores at each wedge coordinate a value that depends on the coordinate and beta only (HKernel.runH_refines/pure/size_indep); over checked reals the recursion never divides by zero nor takes the root of a negative number for any size, and never reads the inf/nan table entries (Finite.runH_checked_eq_real, tables_read_defined); every flat index expression of _step_2.._step_5 denotes the cell/table entry the model uses, in range (FlatSteps.*); d/D assembly formula; eps = generated eps; over exact reals the model EQUALS the documented polynomial for ell <= 1 and every unit quaternion (both degenerate Euler branches included: DDef.D_ell1, d_ell1 — pins every sign/phase/index convention), for ell = 2 (DDef2) and on both pole families for EVERY ell (DDef.D_zrot, D_pi, D_identity, H_poles); and, unconditionally, for EVERY ell, every unit quaternion and every entry: the documented d satisfies the Gumerov-Duraiswami relations (0),(41),(50) and both symmetries (DocD.isGDFamily_doc, via its generating polynomial), those relations have a unique solution, which is what the model stores (GDFamily.*), hence model of Wigner.d = documented d (DocD.objd_eq_docd) and model of Wigner.D = documented D including both degenerate Euler branches (DAll.D_all). What is NOT proved is the floating-point error bound (oracle-sampled)." + PARTIAL_ROUNDING,
             NOTE_COMMON + "quaternionic.ToEulerPhases modelled from its source; np.sqrt(complex) a parameter. Known finding F10 (subnormal near-pole band) is reported as KNOWN-FINDING.", "DESIGN.md §7 C01"),
     "C02": ("Lean theorems (exact zeros for every arithmetic, sYlm = D column in exact arithmetic, narrow-wedge safety) + bitwise correspondence + oracle to ell=1024",
-            "Proved: entries below |s| are literal zeros for every scalar type; every H lookup of spin s lies in |m'|<=|s| (so an mp_max-limited calculator is safe for every ell_max); in exact arithmetic sYlm = (-1)^s sqrt((2l+1)/4pi) D^l_{m,-s} of the same model (Routes.sYlm_eq_D_column); H refinement as C01. fill_sYlm agrees bitwise incl. |s|>=3, limited calculators, ell_min>0." + PARTIAL,
+            "Proved: entries below |s| are literal zeros for every scalar type; every H lookup of spin s lies in |m'|<=|s| (so an mp_max-limited calculator is safe for every ell_max); in exact arithmetic sYlm = (-1)^s sqrt((2l+1)/4pi) D^l_{m,-s} of the same model (Routes.sYlm_eq_D_column) and of the DOCUMENTED D for every ell and unit quaternion (DAll.sYlm_all); H refinement as C01. fill_sYlm agrees bitwise incl. |s|>=3, limited calculators, ell_min>0." + PARTIAL_ROUNDING,
             NOTE_COMMON + "z**|s| (numpy complex power) is a parameter of the model. Known finding F10 as in C01.", "DESIGN.md §7 C02"),
     "C03": ("Lean proof that the Horner route equals the plain double sum f_lm*sYlm (exact arithmetic, all sizes/spins) + bitwise correspondence of _evaluate_Horner + sweep of every route",
             "Proved for all ell_max, all spins: evaluateHorner = sum_{l,m} f_lm * sYlmEntry over exact reals (Routes.evaluate_eq_sum_sYlm), output cell initialised by the kernel (evaluateHornerK); the incremental flat index walking of _evaluate_Horner (both 0<m<|s| jump loops, any number of iterations, any mp_max>=|s|) lands on WignerHindex(ell, ±m, -s) of the generated index functions, i.e. on the cell the model reads, in range (IndexWalk.evalH_walk_*). _evaluate_Horner agrees bit for bit with the model. Matrix route, larger calculators, Modes.evaluate, Modes.grid (spinsfast on/off), shapes and input immutability are checked by the sweep." + PARTIAL,
